@@ -224,6 +224,13 @@ def judge(sh: Shard, mw, label, suspend, regime, exited):
         if e["sensor"] is not None and e["sensor"] != to_string(e["state"]):
             sh.violation("C08:I6:sensor", f"status sensor reads {e['sensor']!r} while the state is {e['state']} at delivery of {e['event']}", dict(wbase, trail=tail(i)))
             break
+    # ---- I6b: a client watching the status sensor reads the text of the manager's state inside its
+    # notification, and the new value it is told is that text
+    for n_ in getattr(mw, "sensor_notifications", []):
+        sh.count("status_sensor_notifications_observed")
+        if n_["shown"] != n_["expected"]:
+            sh.violation("C08:I6:sensor-at-notification", f"a watcher of the status sensor read {n_['shown']!r} inside its notification while the state was {n_['state']} ({n_['expected']!r})", dict(wbase, at=round(n_["t"], 2)))
+            break
     # ---- I7: transition table (sequential semantics only)
     if suspend == "none":
         timeline = sorted([(e["seq"], "ev", e) for e in ev] + [(r["seq1"], "reset", r) for r in api if r["api"] == "async_reset" and r["t1"] is not None and r["exc"] is None], key=lambda x: x[0])
